@@ -1,6 +1,6 @@
 (* Extract/ExC17.v -- extraction for family c17 *)
 From Coq Require Import Extraction ExtrOcamlBasic ExtrOcamlString.
-From AT Require Import Num Vec Aff Farkas FM Equiv PTree Cells Abs Schema SchemaSpec.
+From AT Require Import Num Vec Aff Farkas FM Equiv PTree Cells Abs Schema SchemaSpec ArgmaxLoop.
 Extraction Blacklist List String Int.
 Extraction "model_c17.ml"
   qc_of_float qz qfrac qleb qltb qeqb qabs Qcplus Qcmult Qcopp Qcminus Qcdiv
@@ -19,4 +19,5 @@ Extraction "model_c17.ml"
   relu_def leaky_relu_def hard_tanh_def hard_shrink_def hard_sigmoid_def hard_sigmoid_textbook threshold_def
   argmax_def class_def inf_norm_def in_polyb from_poly_def
   htree relu_h leaky_relu_h hard_tanh_h hard_shrink_h hard_sigmoid_h threshold_h hsem
-  class_spec argmax_spec inf_norm_spec from_poly_spec restrict_tree.
+  class_spec argmax_spec inf_norm_spec from_poly_spec restrict_tree
+  argmax_loop to_ptree.
